@@ -46,7 +46,7 @@ PROPS = {
                   "no-response conditions)",
         rule="exhaustive: all 65536 values of the header flag word x 2 bodies (mixed-case question / no question) x both "
              "transports; plus scenarios with random flag words, QR set, 0/1/2 questions, QNAMEs that are pointers into "
-             "the header, mixed-case QNAMEs, and hostile mutations. distinct = (opcode, RD, question present, flag bits) classes",
+             "the header, mixed-case QNAMEs, and hostile mutations. distinct = (opcode, RD, question present, flag bits) classes; half of the scenarios carry TSIG key sets and a third of their requests are signed (valid, stale, corrupted, unknown key, and valid with a TSIG Original ID that differs from the header ID)",
         assumptions=COMMON_ASSUMPTIONS + ["RRL disabled so that a missing response is attributable"],
         quick=plans(dict(build="dbg", nshards=16)),
         thorough=plans(dict(build="dbg", nshards=16), dict(build="rel", nshards=16), dict(build="asan", nshards=16, scale=0.2), dict(build="miri", nshards=16, timeout=3000)),
@@ -57,7 +57,7 @@ PROPS = {
         rule="catalogs with RRsets of 10-80 addresses, 200-octet TXT records, owner names of 120-190 octets with MX sets "
              "(defeating compression), referrals with and without glue; request EDNS payload sizes drawn from "
              "{0,1,511,512,513,600,700,1232,1233,2000,4096,65535,random}; server sizes 512..65535; every request is sent "
-             "over UDP and over TCP. distinct = (outcome kind: same / tc / partial, size bucket of the complete response)",
+             "over UDP and over TCP. distinct = (outcome kind: same / tc / partial, size bucket of the complete response); the UDP response buffer handed to the server is the configured payload size, slightly larger, random, or 65535 octets (the limit must come from the server, not from the buffer)",
         assumptions=COMMON_ASSUMPTIONS + ["no TSIG and no RRL in this workload (byte-equality of the twin responses)"],
         quick=plans(dict(build="dbg", nshards=16)),
         thorough=plans(dict(build="dbg", nshards=16), dict(build="rel", nshards=16), dict(build="asan", nshards=16, scale=0.2), dict(build="miri", nshards=16, timeout=3000)),
@@ -86,7 +86,7 @@ PROPS = {
                   "over decoded responses, for HashMapTreeCatalog and SingleZoneCatalog",
         rule="catalogs of 1-5 entries over nested names in IN/CH/HS/CLASS65280 in the states loaded / not-yet-loaded / "
              "failed; requests with opcodes 0-15, with and without a question, QCLASS ANY/NONE/unknown, QTYPE "
-             "AXFR/IXFR/MAILA/MAILB, names inside, between and outside the entries. distinct = (expected rule, response shape)",
+             "AXFR/IXFR/MAILA/MAILB, names inside, between and outside the entries. distinct = (expected rule, response shape); half of the catalogs are edited histories: 1-3 decoy entries below, above and beside the lasting entries are inserted and removed again in random order",
         assumptions=COMMON_ASSUMPTIONS,
         quick=plans(dict(build="dbg", nshards=16)),
         thorough=plans(dict(build="dbg", nshards=16), dict(build="rel", nshards=16), dict(build="asan", nshards=16, scale=0.2), dict(build="miri", nshards=16, timeout=3000)),
@@ -97,7 +97,7 @@ PROPS = {
         rule="well-formed requests (with OPT, junk records in every section) damaged by: truncation at every kind of "
              "offset, appended junk (1-300 octets), each count +-1 / 0 / 65535, RDLENGTH edits, OPT/TSIG moved to "
              "answer/authority, duplicated OPT, pointer retargeting, inserts, deletes, flips; 5/6 of requests are damaged. "
-             "Judged when P finds a FORMERR-class problem (or a QUERY without question). distinct = (reason, response shape)",
+             "Judged when P finds a FORMERR-class problem (or a QUERY without question). distinct = (reason, response shape); a fifth of the requests get 0/1/2 OPT records at any position with arbitrary version / extended-RCODE octets and owners, so that duplicate-OPT FORMERR competes with BADVERS",
         assumptions=COMMON_ASSUMPTIONS + ["a TSIG TTL with the top bit set is not judged (RFC 2181 §8 reads it as zero)"],
         quick=plans(dict(build="dbg", nshards=16)),
         thorough=plans(dict(build="dbg", nshards=16), dict(build="rel", nshards=16), dict(build="asan", nshards=16, scale=0.2), dict(build="miri", nshards=16, timeout=3000)),
